@@ -475,6 +475,16 @@ func loadhistChild() {
 				lhNLoads = i
 			}
 		}
+		if len(f) > 6 && f[0] == "pload" {
+			for _, b := range []int{1, 6} {
+				if i, err := strconv.Atoi(f[b]); err == nil && i > lhNLoads {
+					lhNLoads = i
+				}
+			}
+		}
+		if len(f) > 1 && f[0] == "groups" {
+			continue
+		}
 	}
 	if strings.Contains(hist, " gm ") {
 		// forcing a migration needs a single P kept busy by another goroutine
@@ -534,6 +544,69 @@ func loadhistChild() {
 				msg = err.Error()
 			}
 			fmt.Fprintf(lhOut, "R %d %s x%s\n", step, classify(err), hex.EncodeToString([]byte(msg)))
+		case "pload":
+			// pload I1 aK1 nnp1 flags1 pol1 I2 aK2 nnp2 flags2 pol2: two loads from two pinned actors made to OVERLAP between
+			// their prctl and seccomp steps (both wait at the schedule point until the other has arrived)
+			type pl struct {
+				idx   int
+				who   string
+				nnp   bool
+				flags uint64
+				pol   seccomp.Policy
+				err   error
+			}
+			var ls [2]*pl
+			for k := 0; k < 2; k++ {
+				b := 1 + 5*k
+				idx, _ := strconv.Atoi(f[b])
+				flags, _ := strconv.ParseUint(f[b+3], 10, 32)
+				ls[k] = &pl{idx: idx, who: f[b+1], nnp: f[b+2] == "1", flags: flags, pol: policyFor(f[b+4], idx)}
+				tag := "G"
+				if k == 1 {
+					tag = "G2"
+				}
+				if insts, err := ls[k].pol.Assemble(); err == nil {
+					if raw, err := bpf.Assemble(insts); err == nil {
+						var sb strings.Builder
+						for _, r := range raw {
+							fmt.Fprintf(&sb, " %d:%d:%d:%d", r.Op, r.Jt, r.Jf, r.K)
+						}
+						fmt.Fprintf(lhOut, "%s %d %d%s\n", tag, step, len(raw), sb.String())
+					}
+				} else {
+					fmt.Fprintf(lhOut, "%s %d -1\n", tag, step)
+				}
+			}
+			var arrived int32
+			seccomp.SchedPointVerif = func() {
+				atomic.AddInt32(&arrived, 1)
+				for i := 0; i < 2000 && atomic.LoadInt32(&arrived) < 2; i++ {
+					rawSleep(1e6)
+				}
+			}
+			var pwg sync.WaitGroup
+			for k := 0; k < 2; k++ {
+				pwg.Add(1)
+				go func(l *pl) {
+					defer pwg.Done()
+					runOn(l.who, step, func() {
+						l.err = seccomp.LoadFilter(seccomp.Filter{NoNewPrivs: l.nnp, Flag: seccomp.FilterFlag(l.flags), Policy: l.pol})
+					})
+				}(ls[k])
+			}
+			pwg.Wait()
+			seccomp.SchedPointVerif = nil
+			for k := 0; k < 2; k++ {
+				msg := ""
+				if ls[k].err != nil {
+					msg = ls[k].err.Error()
+				}
+				tag := "R"
+				if k == 1 {
+					tag = "R2"
+				}
+				fmt.Fprintf(lhOut, "%s %d %s x%s\n", tag, step, classify(ls[k].err), hex.EncodeToString([]byte(msg)))
+			}
 		case "supp":
 			var b bool
 			runOn(f[1], step, func() { b = seccomp.Supported() })
@@ -542,6 +615,16 @@ func loadhistChild() {
 			var err error
 			runOn(f[1], step, func() { err = seccomp.SetNoNewPrivs() })
 			fmt.Fprintf(lhOut, "R %d %s x\n", step, classify(err))
+		case "groups":
+			// a long list of supplementary groups (what /proc/self/status then looks like is the process's business)
+			n, _ := strconv.Atoi(f[1])
+			gs := make([]int, n)
+			for i := range gs {
+				gs[i] = 70000 + i
+			}
+			if err := syscall.Setgroups(gs); err != nil {
+				fmt.Fprintf(lhOut, "X setgroups %v\n", err)
+			}
 		case "drop":
 			if err := syscall.Setgroups(nil); err != nil {
 				fmt.Fprintf(lhOut, "X setgroups %v\n", err)
